@@ -180,3 +180,21 @@ Proof.
   { rewrite <- (merge_aux_onsets s s []). apply nth_onset. exact Hn. }
   rewrite Hri in Hfirst. lia.
 Qed.
+
+(* ================================================================== *)
+(* Spelling of the tags (e.g. a schema namespace prefix on every tag) is invisible to the model: it only
+   changes the opaque payload [it_id].  Concrete instance: relabelling every payload of the example
+   history relabels the result and changes nothing else. *)
+Definition relabel_item (f : N -> N) (it : item) : item := mkItem (it_delay it) (it_kind it) (f (it_id it)).
+Definition relabel_row (f : N -> N) (r : row) : row := mkRow (r_onset r) (map (relabel_item f) (r_items r)).
+Definition relabel_ev (f : N -> N) (e : tevent) : tevent :=
+  mkEv (ev_start e) (ev_start_time e) (ev_end e) (ev_end_time e) (relabel_item f (ev_item e)).
+Definition relabel_out (f : N -> N) (o : output) : output :=
+  mkOut (map (relabel_row f) (o_rows o)) (map (map (relabel_ev f)) (o_events o))
+        (map (map (relabel_ev f)) (o_base o)) (map (map (relabel_ev f)) (o_contexts o))
+        (map (map (relabel_item f)) (o_hed o)).
+
+Lemma relabel_example :
+  event_manager (map (relabel_row (N.add 100)) ex_history) =
+  match event_manager ex_history with Ok o => Ok (relabel_out (N.add 100) o) | Exn e => Exn e end.
+Proof. vm_compute. reflexivity. Qed.
